@@ -389,6 +389,8 @@ def scan_tables():
                 names, fmts = row_bounded[fn]
                 st = (proved_kernel[fn] + "; " if fn in proved_kernel else "") + "row bounded"
                 ent["jobs"] = names
+                # which obligations the scheduled jobs carry: chN = pixel channel N (0=B 1=G 2=R 3=A), ch5 = all fields (SRC), ch4 = frame
+                ent["channels_scheduled"] = sorted({n.rsplit(".ch", 1)[1] for n in names})
                 ent["checked_with_operands"] = fmts
                 mine = ", ".join("-" if a == "null" else a for a in args[1:4])
                 if mine not in fmts.split("; "):
@@ -447,35 +449,88 @@ def selftest_job():
 
 
 # Row jobs of fastfmt_jobs / sse2c_jobs that have a measured passing run on the unchanged tree: CPU seconds (cbmc + kissat,
-# measured while the machine was shared, so wall clock was 1-4x that).  ONLY these are scheduled (timeout = max (1200,
-# 8 x measured)); every other (routine, channel) combination the two generators can produce is a harness mode that exists
+# measured while the machine was shared, so wall clock was 1-4x that).  ONLY these are scheduled (timeout = max (1800,
+# 12 x measured)); every other (routine, channel) combination the two generators can produce is a harness mode that exists
 # but has no measured run, is not scheduled and is not counted as covered in evidence/C02_tables.json.
 # C02_UNMEASURED=1 in the environment schedules all of them (exploration).
 MEASURED = {
-    "fast.fast_composite_src_x888_8888.ch0": 31, "fast.fast_composite_src_x888_8888.ch1": 31, "fast.fast_composite_src_x888_8888.ch2": 31,
-    "fast.fast_composite_src_x888_8888.ch3": 31, "fast.fast_composite_src_x888_8888.ch4": 31,
-    "fast.fast_composite_in_8_8.ch3": 58, "fast.fast_composite_in_8_8.ch4": 32,
-    "fast.fast_composite_in_n_8_8.ch4": 32,
-    "fast.fast_composite_add_n_8_8.x012.ch3": 60, "fast.fast_composite_add_n_8_8.ch4": 31,
-    "fast.fast_composite_over_8888_0565.ch1": 40,
     "fast.fast_composite_add_0565_0565.ch0": 29,
-    "fast.fast_composite_add_1_1.ch3": 26, "fast.fast_composite_add_1_1.ch4": 27,
+    "fast.fast_composite_add_0565_0565.ch1": 30,
+    "fast.fast_composite_add_0565_0565.ch2": 30,
+    "fast.fast_composite_add_0565_0565.ch4": 33,
+    "fast.fast_composite_add_1_1.ch3": 26,
+    "fast.fast_composite_add_1_1.ch4": 27,
+    "fast.fast_composite_add_n_8888_8888_ca.ch4": 33,
+    "fast.fast_composite_add_n_8888_8888_ca.x012.ch1": 60,
+    "fast.fast_composite_add_n_8888_8888_ca.x012.ch3": 67,
+    "fast.fast_composite_add_n_8_8.ch4": 31,
+    "fast.fast_composite_add_n_8_8.x012.ch3": 60,
+    "fast.fast_composite_in_8_8.ch3": 58,
+    "fast.fast_composite_in_8_8.ch4": 32,
+    "fast.fast_composite_in_n_8_8.ch4": 32,
+    "fast.fast_composite_over_8888_0565.ch0": 39,
+    "fast.fast_composite_over_8888_0565.ch1": 40,
+    "fast.fast_composite_over_8888_0565.ch2": 41,
+    "fast.fast_composite_over_8888_0565.ch4": 29,
+    "fast.fast_composite_over_n_1_0565.ch1": 56,
+    "fast.fast_composite_over_n_1_0565.ch4": 31,
+    "fast.fast_composite_over_n_1_8888.ch1": 80,
+    "fast.fast_composite_over_n_1_8888.ch3": 88,
+    "fast.fast_composite_over_n_1_8888.ch4": 33,
     "fast.fast_composite_over_n_8_0888.ch4": 30,
-    "fast.fast_composite_solid_fill.a8r8g8b8.ch5": 28, "fast.fast_composite_solid_fill.a8r8g8b8.ch4": 26,
-    "fast.fast_composite_solid_fill.r5g6b5.ch5": 26, "fast.fast_composite_solid_fill.r5g6b5.ch4": 27,
-    "fast.fast_composite_solid_fill.a8.ch5": 26, "fast.fast_composite_solid_fill.a8.ch4": 26,
-    "fast.fast_composite_solid_fill.a1.ch5": 26, "fast.fast_composite_solid_fill.a1.ch4": 30,
-    "fast.fast_composite_src_memcpy.x1r5g5b5.ch5": 30, "fast.fast_composite_src_memcpy.x1r5g5b5.ch4": 28,
-    "fast.fast_composite_src_memcpy.r8g8b8.ch5": 41, "fast.fast_composite_src_memcpy.r8g8b8.ch4": 40,
-    "fast.fast_composite_add_n_8888_8888_ca.x012.ch1": 59,
-    "sse2c.sse2_composite_over_n_8888.ch3": 115, "sse2c.sse2_composite_over_n_8888.ch4": 41,
-    "sse2c.sse2_composite_add_8888_8888.ch1": 53, "sse2c.sse2_composite_add_8888_8888.ch4": 36,
-    "sse2c.sse2_composite_add_n_8.ch3": 82, "sse2c.sse2_composite_add_n_8.ch4": 50,
+    "fast.fast_composite_solid_fill.a1.ch4": 30,
+    "fast.fast_composite_solid_fill.a1.ch5": 26,
+    "fast.fast_composite_solid_fill.a8.ch4": 26,
+    "fast.fast_composite_solid_fill.a8.ch5": 26,
+    "fast.fast_composite_solid_fill.a8r8g8b8.ch4": 26,
+    "fast.fast_composite_solid_fill.a8r8g8b8.ch5": 28,
+    "fast.fast_composite_solid_fill.r5g6b5.ch4": 27,
+    "fast.fast_composite_solid_fill.r5g6b5.ch5": 26,
+    "fast.fast_composite_src_memcpy.a8.ch4": 32,
+    "fast.fast_composite_src_memcpy.a8.ch5": 31,
+    "fast.fast_composite_src_memcpy.a8r8g8b8.ch4": 32,
+    "fast.fast_composite_src_memcpy.a8r8g8b8.ch5": 32,
+    "fast.fast_composite_src_memcpy.b8g8r8a8.ch4": 30,
+    "fast.fast_composite_src_memcpy.b8g8r8a8.ch5": 31,
+    "fast.fast_composite_src_memcpy.r5g6b5.ch4": 30,
+    "fast.fast_composite_src_memcpy.r5g6b5.ch5": 31,
+    "fast.fast_composite_src_memcpy.r8g8b8.ch4": 40,
+    "fast.fast_composite_src_memcpy.r8g8b8.ch5": 41,
+    "fast.fast_composite_src_memcpy.x1r5g5b5.ch4": 28,
+    "fast.fast_composite_src_memcpy.x1r5g5b5.ch5": 30,
+    "fast.fast_composite_src_x888_8888.ch0": 31,
+    "fast.fast_composite_src_x888_8888.ch1": 31,
+    "fast.fast_composite_src_x888_8888.ch2": 31,
+    "fast.fast_composite_src_x888_8888.ch3": 31,
+    "fast.fast_composite_src_x888_8888.ch4": 31,
+    "sse2c.sse2_composite_add_8888_8888.ch1": 53,
+    "sse2c.sse2_composite_add_8888_8888.ch4": 36,
+    "sse2c.sse2_composite_add_8_8.ch3": 159,
+    "sse2c.sse2_composite_add_8_8.ch4": 122,
+    "sse2c.sse2_composite_add_n_8.ch3": 82,
+    "sse2c.sse2_composite_add_n_8.ch4": 50,
+    "sse2c.sse2_composite_add_n_8888.ch1": 48,
+    "sse2c.sse2_composite_add_n_8888.ch4": 36,
     "sse2c.sse2_composite_in_8_8.ch4": 104,
-    "sse2c.sse2_composite_src_x888_8888.ch0": 111, "sse2c.sse2_composite_src_x888_8888.ch1": 116, "sse2c.sse2_composite_src_x888_8888.ch2": 117,
-    "sse2c.sse2_composite_src_x888_8888.ch3": 112, "sse2c.sse2_composite_src_x888_8888.ch4": 84,
-    "sse2c.sse2_composite_src_x888_0565.ch0": 74, "sse2c.sse2_composite_src_x888_0565.ch1": 75, "sse2c.sse2_composite_src_x888_0565.ch2": 75,
+    "sse2c.sse2_composite_in_8_8.k8.ch3": 223,
+    "sse2c.sse2_composite_over_8888_0565.ch4": 131,
+    "sse2c.sse2_composite_over_8888_8888.ch1": 208,
+    "sse2c.sse2_composite_over_8888_8888.ch4": 56,
+    "sse2c.sse2_composite_over_n_0565.ch1": 247,
+    "sse2c.sse2_composite_over_n_8888.ch1": 162,
+    "sse2c.sse2_composite_over_n_8888.ch3": 115,
+    "sse2c.sse2_composite_over_n_8888.ch4": 41,
+    "sse2c.sse2_composite_over_n_8_8888.ch4": 54,
+    "sse2c.sse2_composite_over_reverse_n_8888.ch1": 149,
+    "sse2c.sse2_composite_src_x888_0565.ch0": 74,
+    "sse2c.sse2_composite_src_x888_0565.ch1": 75,
+    "sse2c.sse2_composite_src_x888_0565.ch2": 75,
     "sse2c.sse2_composite_src_x888_0565.ch4": 53,
+    "sse2c.sse2_composite_src_x888_8888.ch0": 111,
+    "sse2c.sse2_composite_src_x888_8888.ch1": 116,
+    "sse2c.sse2_composite_src_x888_8888.ch2": 117,
+    "sse2c.sse2_composite_src_x888_8888.ch3": 112,
+    "sse2c.sse2_composite_src_x888_8888.ch4": 84,
 }
 
 
@@ -485,7 +540,7 @@ def measured_only(js):
     out = []
     for j in js:
         if j.name in MEASURED:
-            j.timeout = max(1200, int(8 * MEASURED[j.name]))
+            j.timeout = max(1800, int(12 * MEASURED[j.name]))
             out.append(j)
     return out
 
